@@ -244,6 +244,19 @@ pub fn gen_random(seed: u64, idx: u64) -> Plan {
         c.steps = steps;
         conns.push(c);
     }
+    if r.chance(1, 10) {
+        // a patient client: its handler works for one to three minutes, it
+        // sends nothing meanwhile and simply waits for its response
+        let mut c = blank_conn(1800);
+        c.start_ms = r.range(0, 60);
+        let w = WorkReq { nonce, steps: r.range(2, 4) as u32, step_ms: r.range(25_000, 45_000), panic_at: 0, resp_bytes: *r.pick(&[0usize, 10, 300]), body: None, chunked: None };
+        nonce += 1;
+        let dur = u64::from(w.steps) * w.step_ms;
+        c.steps.push(Step::Send { data: Blob(w.bytes()), completes: Some(0) });
+        c.steps.push(Step::AwaitResponses { count: 1, max_ms: dur + 60_000 });
+        c.reqs.push(w.plan());
+        conns.push(c);
+    }
     if tls {
         for c in conns.iter_mut() {
             if c.kind != ConnKind::H2 {
